@@ -276,7 +276,7 @@ expr ::= … | o1 900 v <w> <pt> 0      floor(population(w, pt(period), options=
 (`OUT`: the `calculate_output` attribute of each variable, 0 none / 1 add / 2 divide; `out` is
 `Simulation.calculate_output`, answered like the request it forwards to.)
 Answers: `div` → `ok:<numerators…>/<denominator>`; `get` → `g:<values…>` | `g:none`; `del` → `-`;
-`set` → `-` (stored or ignored) | `ERR` (refused).  `tcalc` → `<res>#L:<node>=<result>><read>+…&…` (the log of `runL`: every calculation opened,
+`set` → `-` (stored or ignored) | `ERR` (refused); `repl <v> <variable as in the V section>` → `-`.  `tcalc` → `<res>#L:<node>=<result>><read>+…&…` (the log of `runL`: every calculation opened,
 chronologically).  `reads` lists, for every retained computed node,
 `<node>><read>+<read>…[$<param>:<instant ordinal>:<value>+…]`.
 -/
@@ -290,6 +290,7 @@ inductive XReq
   | get (v : Nat) (p : Period)
   | del (v : Nat) (p : Option Period)
   | set (v : Nat) (p : Period) (x : Val)
+  | repl (v : Nat) (vv : Var)        -- the declaration of variable `v` is replaced in the live system
   | arm (id : Nat)
   | disarm (id : Nat)
   | reads
@@ -317,6 +318,7 @@ def pXReq (size : Nat → Option Nat) : Parser XReq
     let n ← size v
     let (xs, r) ← pMany pInt n r
     pure (.set v p xs, r)
+  | "repl" :: r => do let (v, r) ← pNat r; let (vv, r) ← pVar r; pure (.repl v vv, r)
   | "arm" :: r => do let (i, r) ← pNat r; pure (.arm i, r)
   | "disarm" :: r => do let (i, r) ← pNat r; pure (.disarm i, r)
   | "reads" :: r => some (.reads, r)
@@ -460,6 +462,9 @@ def runXCase (c : XSimCase) : String :=
       | some _ =>
         let x' : XDecl := { x with inputs := deleteInputs x.toDecl v q }
         go armed x' { s with cache := deleteCached x.toDecl v q s.cache } ("-" :: out) r
+    | .repl v vv :: r =>
+      -- `tbs.replace_variable`: from now on the system's declaration of `v` is `vv`; stored values stay
+      go armed { x with vars := x.vars.set v vv } s ("-" :: out) r
     | .set v q y :: r =>
       match setInputOutcome x.toDecl v q with
       | .refused => go armed x s ("ERR" :: out) r
